@@ -13,6 +13,7 @@ import gens  # noqa: E402
 import tables as T  # noqa: E402
 
 SET_MEASURES = ['JACCARD', 'COSINE', 'DICE', 'OVERLAP_COEFFICIENT', 'OVERLAP']
+SPECS = ['model_agrees', 'complete_spec', 'sound_spec', 'missing_spec', 'empty_spec']
 
 
 def gen_call(rng, measure=None, njobs_choices=(1, 1, 1, 2, 3, 5, -1, -20), boundary=False):
@@ -113,8 +114,7 @@ def abstract(call, df, idx):
     rcol = 'r_' + names[2]
     obs = T.obs_lit(df, lcol, rcol, it, call['with_score'])
     defs = 'Definition c%d : jcase := %s.\nDefinition o%d : list out_row := %s.' % (idx, lit, idx, obs)
-    exprs = ['model_agrees c%d o%d' % (idx, idx), 'complete_spec c%d o%d' % (idx, idx),
-             'sound_spec c%d o%d' % (idx, idx)]
+    exprs = ['%s c%d o%d' % (sp, idx, idx) for sp in SPECS]
     return defs, exprs
 
 
@@ -167,12 +167,12 @@ def run(seed, n, measures=None, boundary_frac=0.3):
             groups.append(('', []))
             continue
         groups.append(abstract(call, df, i))
-    bad = C.run_groups('joins_%d' % seed, ['TokenOrdering', 'Filters', 'Joins', 'Api', 'JoinSpec'], groups)
+    bad = C.run_groups('joins_%d' % seed, ['TokenOrdering', 'Filters', 'Joins', 'Api', 'JoinSpec', 'MetaSpec'], groups)
     res = {'evaluations': n, 'distribution': dist, 'differ': [], 'spec_fail': [], 'exceptions': [],
            'nontrivial': sum(1 for c, d in zip(calls, dfs) if is_nontrivial(c, d))}
     for (gi, ei) in sorted(bad):
         (res['differ'] if ei == 0 else res['spec_fail']).append(
-            {'case': gi, 'which': ['model_agrees', 'complete_spec', 'sound_spec'][ei],
+            {'case': gi, 'which': SPECS[ei],
              'call': describe(calls[gi], dfs[gi])})
     for i, d in enumerate(dfs):
         if isinstance(d, Exception):
